@@ -1,6 +1,7 @@
 package seq
 
 import (
+	"bytes"
 	"fmt"
 	"github.com/libp2p/go-libp2p/core/crypto"
 	"sort"
@@ -563,16 +564,36 @@ func c06Searches(p *run.Part, tier string) []*seqx.Search {
 		}
 		ss = append(ss, s)
 	}
+	rs := &seqx.Search{Part: p, Check: "revocation", Cfg: cfgRevocable, Alphabet: alpha, Depth: depth, Deadline: dl,
+		OnState: func(w *seqx.World, c seqx.Case) {
+			for _, pr := range [][2]int{{0, 1}, {1, 0}} {
+				key := "revoke" + fmt.Sprint(hashesOf(w.Logs[pr[0]].Heads().Slice()), hashesOf(w.Logs[pr[1]].Heads().Slice()), pr[0])
+				if _, dup := seen.LoadOrStore(key, true); dup {
+					continue
+				}
+				revokeOne(p, revokeCase{Case: c, Dst: pr[0], Src: pr[1]})
+			}
+		}}
+	ss = append(ss, rs)
 	return ss
 }
 
 func init() {
+	Configs[cfgRevocable.Name] = cfgRevocable
 	register(&Check{ID: "C06", Run: func(p *run.Part, tier string) {
 		p.Rule = "(A) transitions of the 2-replica BFS under three access policies and three codecs; (B) tampered merges (state, dst, src, position, fault kind) de-duplicated on the pair of replica states; non-trivial = distinct denied appends/merges and distinct rejected tampered merges"
 		p.Assume("2 replicas, depth as in extra.searches, sources of <= 5 entries for tampering; policies: deny one writer, deny one payload; codecs: default, link-key, legacy pb; the concurrent verification workers are explored separately by the scheduler engine")
 		runSearches(p, c06Searches(p, tier))
 		p.Sample(8, c06Case{Config: "allow/default", Path: Shapes["fork"], Dst: 1, Src: 0, Pos: 2, Fault: "payload-altered"})
 	}, Replay: func(p *run.Part, check string, raw []byte) {
+		if check == "revocation" && bytes.Contains(raw, []byte(`"dst"`)) {
+			var rc revokeCase
+			if err := jsonUnmarshal(raw, &rc); err != nil {
+				panic(err)
+			}
+			revokeOne(p, rc)
+			return
+		}
 		if check == "tamper" {
 			var cc c06Case
 			if err := jsonUnmarshal(raw, &cc); err != nil {
@@ -635,3 +656,70 @@ func (l lenientProvider) UnmarshalPublicKey(data []byte) (crypto.PubKey, error) 
 type acceptAllKey struct{ crypto.PubKey }
 
 func (acceptAllKey) Verify(data []byte, sig []byte) (bool, error) { return true, nil }
+
+// ---------------------------------------------------------------------------
+// Revocation: both replicas consult ONE controller instance (as logs of one application do), and its verdict
+// changes over time. A writer appends while permitted, is revoked, and only then is its log merged: the
+// merging log's controller denies those entries NOW, so the merge is refused and changes nothing, whoever
+// else the controller also guards.
+
+type revocableAC struct {
+	mu      sync.Mutex
+	revoked map[string]bool
+}
+
+func (r *revocableAC) CanAppend(e accesscontroller.LogEntry, _ idp.Interface, _ accesscontroller.CanAppendAdditionalContext) error {
+	r.mu.Lock()
+	defer r.mu.Unlock()
+	if e.GetIdentity() != nil && r.revoked[e.GetIdentity().ID] {
+		return fmt.Errorf("policy: writer revoked")
+	}
+	return nil
+}
+
+var cfgRevocable = &seqx.Config{Name: "revocable-shared-controller", Writers: []int{0, 1}, PC: 4,
+	ACShared: func() accesscontroller.Interface { return &revocableAC{revoked: map[string]bool{}} }}
+
+type revokeCase struct {
+	seqx.Case
+	Dst int `json:"dst"`
+	Src int `json:"src"`
+}
+
+func revokeOne(p *run.Part, rc revokeCase) {
+	w := seqx.Replay(cfgRevocable, rc.Path)
+	dst, src := w.Logs[rc.Dst], w.Logs[rc.Src]
+	// does the source hold an entry of its writer that the destination lacks?
+	srcWriter := world.IDs[w.WriterOf[rc.Src]].ID
+	brings := false
+	for _, e := range src.GetEntries().Slice() {
+		if _, ok := dst.Get(e.GetHash()); !ok && e.GetIdentity() != nil && e.GetIdentity().ID == srcWriter {
+			brings = true
+		}
+	}
+	if !brings {
+		return
+	}
+	ac := w.SharedAC.(*revocableAC)
+	ac.mu.Lock()
+	ac.revoked[srcWriter] = true
+	ac.mu.Unlock()
+	pre := seqx.SnapPre(w, false)
+	var err error
+	pv, stack := run.Safe(func() { _, err = dst.Join(src, -1) })
+	p.Add(0, 1, 0, 1)
+	desc := fmt.Sprintf("after %s, writer of replica %d revoked, then join(%d<-%d)", seqx.PathString(rc.Path), rc.Src, rc.Dst, rc.Src)
+	switch {
+	case pv != nil:
+		p.Violate("revocation", "C06:panic:revoked-merge:"+run.PanicSite(stack), fmt.Sprintf("%s panicked: %v", desc, pv), rc)
+	case err == nil:
+		p.Violate("revocation", "C06:denied-merge-accepted:shared-controller", desc+": the merge succeeded although the destination's controller denies the writer now", rc)
+	default:
+		if d := unchanged(w, pre, rc.Dst); d != "" {
+			p.Violate("revocation", "C06:failed-merge-changed-log", fmt.Sprintf("%s: refused (%v) but %s", desc, err, d), rc)
+			return
+		}
+		p.Add(0, 0, 1, 0)
+		p.Nontriv("revoked:" + pre.Key)
+	}
+}
